@@ -214,6 +214,8 @@ fn gen_alt(cst: &Cst<'_>, node_ref: NodeRef, items: &mut PrintItems) {
         for child_node_ref in it {
             match cst.get(child_node_ref) {
                 Node::Token(Token::Or | Token::Slash, _) => {
+                    #[cfg(lelwel_verif)]
+                    VERIF_FORCE.with(|v| v.borrow_mut().push(force_multiline));
                     items.push_condition(conditions::if_true_or(
                         "multilineAlt",
                         is_multiple_lines.clone(),
@@ -371,4 +373,94 @@ fn gen_rule_decl(cst: &Cst<'_>, node_ref: NodeRef, items: &mut PrintItems) {
         items.push_info(end_ln);
         items.push_reevaluation(semi_cond_reeval);
     }
+}
+
+// ---- verification hook (compiled only with RUSTFLAGS="--cfg lelwel_verif") ----
+
+#[cfg(lelwel_verif)]
+thread_local! {
+    /// `force_multiline` of the enclosing alternation, recorded once per `|` / `/` child
+    /// in the order in which the paired "multilineAlt" conditions are pushed
+    static VERIF_FORCE: std::cell::RefCell<Vec<bool>> = const { std::cell::RefCell::new(Vec::new()) };
+}
+
+/// Renders the print items `gen_cst` produces as a flat list of strings, one per item:
+/// `S:<text>`, `G:<signal>`, `I:<name>#<id>`, `A:<name>#<line number id>`, `R:<name>`,
+/// `C:<name>#<id>` followed by `{T` items `}` `{F` items `}` (an absent path renders as empty),
+/// and for the conditions named "multilineAlt" a suffix `:force=<bool>` (the captured
+/// `force_multiline`; the resolver closures themselves are opaque).
+/// Not reachable through dprint-core's public API: a condition's resolver, `is_stored`,
+/// `store_save_point`, and the condition id a reevaluation refers to.
+#[cfg(lelwel_verif)]
+pub fn verif_items(cst: &Cst<'_>) -> Vec<String> {
+    fn render(
+        iter: PrintItemsIterator,
+        top: bool,
+        forces: &[bool],
+        k: &mut usize,
+        out: &mut Vec<String>,
+    ) {
+        for item in iter {
+            match item {
+                PrintItem::String(s) => out.push(format!("S:{}", s.text)),
+                PrintItem::Signal(s) => out.push(format!("G:{s:?}")),
+                PrintItem::Info(Info::LineNumber(ln)) => {
+                    out.push(format!("I:{}#{}", ln.name(), ln.unique_id()))
+                }
+                PrintItem::Info(_) => out.push("I:?".to_string()),
+                PrintItem::Anchor(Anchor::LineNumber(a)) => {
+                    out.push(format!("A:{}#{}", a.name(), a.line_number_id()))
+                }
+                PrintItem::ConditionReevaluation(r) => out.push(format!("R:{}", r.name())),
+                PrintItem::RcPath(path) => {
+                    render(PrintItemsIterator::new(path), top, forces, k, out)
+                }
+                PrintItem::Condition(c) => {
+                    let mut head = format!("C:{}#{}", c.name(), c.unique_id());
+                    if top && c.name() == "multilineAlt" {
+                        // the two conditions of one `|` share one recorded flag:
+                        // the first has a false path, the second has none
+                        if c.false_path().is_some() {
+                            *k += 1;
+                        }
+                        match k.checked_sub(1).and_then(|i| forces.get(i)) {
+                            Some(f) => head.push_str(&format!(":force={f}")),
+                            None => head.push_str(":force=?"),
+                        }
+                    }
+                    out.push(head);
+                    out.push("{T".to_string());
+                    if let Some(p) = c.true_path() {
+                        render(PrintItemsIterator::new(*p), false, forces, k, out);
+                    }
+                    out.push("}".to_string());
+                    out.push("{F".to_string());
+                    if let Some(p) = c.false_path() {
+                        render(PrintItemsIterator::new(*p), false, forces, k, out);
+                    }
+                    out.push("}".to_string());
+                }
+            }
+        }
+    }
+    let mut out = vec![];
+    // inside `format` so that dprint-core's thread-local arena is reset afterwards;
+    // nothing is handed to the printer
+    let _ = dprint_core::formatting::format(
+        || {
+            VERIF_FORCE.with(|v| v.borrow_mut().clear());
+            let items = gen_cst(cst);
+            let forces = VERIF_FORCE.with(|v| std::mem::take(&mut *v.borrow_mut()));
+            let mut k = 0;
+            render(items.iter(), true, &forces, &mut k, &mut out);
+            PrintItems::new()
+        },
+        PrintOptions {
+            indent_width: 1,
+            max_width: 100,
+            use_tabs: false,
+            new_line_text: "\n",
+        },
+    );
+    out
 }
